@@ -1575,7 +1575,7 @@ impl<'r, 'a, 'ast> Visit<'ast> for V<'r, 'a> {
                 let inner = self.r.render_block_inner(&w.body);
                 self.r.in_foreach = save;
                 let t = format!(
-                    "/*@PRE#{k}@*/ loop /*@INV#{k}@*/ {{ /*@TOP#{k}@*/\nlet __nx{k} = {scrut};\nmatch __nx{k} {{ {pat} => {{ /*@M:item@*/\n{inner}\n}} _ => {{ break; }} }}\n/*@BOT#{k}@*/ }} /*@POST#{k}@*/",
+                    "/*@PRE#{k}@*/ loop /*@INV#{k}@*/ {{ /*@TOP#{k}@*/\nlet __nx{k} = {scrut};\nmatch __nx{k} {{ {pat} => {{ /*@M:item@*/\n{inner}\n}} _ => {{ /*@M:done@*/ break; }} }}\n/*@BOT#{k}@*/ }} /*@POST#{k}@*/",
                     k = k, scrut = scrut, pat = pat, inner = inner
                 );
                 self.replace(e.span(), t);
